@@ -6,6 +6,9 @@ Emits coq/Model/Tables_effects.v with
         Cargo.toml lists under [dependencies] / [build-dependencies] / [target.*.dependencies]; [dev-dependencies]
         are not shipped and are emitted separately (dev_only_edges).  Third-party packages keep every edge of the
         lock file (all platforms, all activated features: an over-approximation).
+  (i')  linked_graph: the graph `cargo metadata --offline --locked --filter-platform x86_64-unknown-linux-gnu
+        --filter-platform wasm32-unknown-unknown` resolves (features resolved, other platforms' target-specific
+        dependencies and dev edges dropped): the crates that can actually be linked into what is shipped.
   (ii)  crate_class: the class of every third-party package from the hand-audited tools/crate_effects.toml, after
         re-running the vocabulary scan of tools/audit_crates.py on the vendored sources (raises on a pinned count
         that no longer matches, on an entry without the reviewed_* pins its class needs, on an unvendored crate).
@@ -121,6 +124,56 @@ def workspace_edges(repo, graph, third_party):
         if s not in by_local_name:
             raise Shape("shipped crate %s is not a workspace member any more" % s)
     return local, [by_local_name[s] for s in SHIPPED], dev_only
+
+
+# ------------------------------------------------------------------------------------------------ (i') linked graph
+LINKED_PLATFORMS = ["x86_64-unknown-linux-gnu", "wasm32-unknown-unknown"]
+
+
+def linked_graph(repo, lock_keys, local):
+    """what cargo itself resolves for the platforms the shipped crates are built for: `cargo metadata --offline --locked
+    --filter-platform …` (feature-resolved: optional dependencies that no feature activates are absent; target-specific
+    dependencies of other platforms are absent).  Edges of kind normal and build are kept, kind dev dropped."""
+    import json, subprocess, tempfile
+    cmd = ["cargo", "metadata", "--format-version", "1", "--offline", "--locked", "--manifest-path", os.path.join(repo, "Cargo.toml")]
+    for plat in LINKED_PLATFORMS:
+        cmd += ["--filter-platform", plat]
+    env = dict(os.environ)
+    env.setdefault("RUSTUP_TOOLCHAIN", "stable-x86_64-unknown-linux-gnu")   # not /repo's rust-toolchain.toml (network)
+    env["CARGO_NET_OFFLINE"] = "true"
+    try:
+        pr = subprocess.run(cmd, cwd=tempfile.gettempdir(), env=env, stdout=subprocess.PIPE, stderr=subprocess.PIPE, timeout=300)
+    except (OSError, subprocess.TimeoutExpired) as ex:
+        raise Shape("cargo metadata could not be run: %r" % (ex,))
+    if pr.returncode != 0:
+        raise Shape("cargo metadata --offline --locked failed: %s" % pr.stderr.decode("utf-8", "replace")[-600:])
+    meta = json.loads(pr.stdout)
+    res = meta.get("resolve")
+    if meta.get("version") != 1 or not isinstance(res, dict) or not isinstance(res.get("nodes"), list):
+        raise Shape("cargo metadata output has a shape I do not know")
+    ident = {p["id"]: (p["name"], p["version"]) for p in meta["packages"]}
+    if len(set(ident.values())) != len(ident):
+        raise Shape("cargo metadata: two packages with one name+version")
+    out = {}
+    for n in res["nodes"]:
+        k = ident.get(n["id"])
+        if k is None or k not in lock_keys:
+            raise Shape("cargo metadata resolves %r, which Cargo.lock does not list" % (n["id"],))
+        ds = []
+        for d in n.get("deps", []):
+            kinds = [x.get("kind") for x in d.get("dep_kinds", [])]
+            if not kinds or any(x not in (None, "build", "dev") for x in kinds):
+                raise Shape("cargo metadata: dependency kinds %r of %s are not ones I know" % (kinds, k))
+            if any(x in (None, "build") for x in kinds):
+                t = ident.get(d["pkg"])
+                if t is None:
+                    raise Shape("cargo metadata: %s depends on an unlisted package %r" % (k, d["pkg"]))
+                ds.append(t)
+        out[k] = sorted(set(ds))
+    members = sorted(ident[i] for i in meta.get("workspace_members", []))
+    if members != sorted(local):
+        raise Shape("cargo metadata workspace members %r differ from Cargo.lock's path packages %r" % (members, sorted(local)))
+    return out
 
 
 # ------------------------------------------------------------------------------------------------ (ii) classes
@@ -562,6 +615,7 @@ def generate(repo):
     graph, third_party = parse_lock(repo)
     local, roots, dev_only = workspace_edges(repo, graph, third_party)
     classes = load_classes(third_party)
+    linked = linked_graph(repo, set(graph), local)
     members = [k[0] for k in local]
     files = workspace_files(repo, members)
     if not any(f == "harper-ls/src/main.rs" for f in files) or not any(f == "harper-ls/src/backend.rs" for f in files):
@@ -608,6 +662,12 @@ def generate(repo):
     o.append("(* (i) resolved dependency graph: package = (name, version); shipped edges only for workspace members *)")
     o.append("Definition lock_graph : list (pkg * list pkg) := [")
     o.append(";\n".join("  (%s, [%s])" % (pk(k), "; ".join(pk(d) for d in graph[k])) for k in sorted(graph)))
+    o.append("].\n")
+    o.append("(* (i') what `cargo metadata --offline --locked` resolves for the platforms the shipped crates are built for")
+    o.append("   (feature-resolved; edges of kind normal + build; dev edges dropped): the crates that can actually be linked *)")
+    o.append("Definition linked_platforms : list string := [%s].\n" % "; ".join(q(x) for x in LINKED_PLATFORMS))
+    o.append("Definition linked_graph : list (pkg * list pkg) := [")
+    o.append(";\n".join("  (%s, [%s])" % (pk(k), "; ".join(pk(d) for d in linked[k])) for k in sorted(linked)))
     o.append("].\n")
     o.append("Definition workspace_members : list pkg := [%s].\n" % "; ".join(pk(k) for k in local))
     o.append("Definition ship_roots : list pkg := [%s].\n" % "; ".join(pk(k) for k in roots))
